@@ -430,20 +430,8 @@ func (lm *levelManager) compactL0() {
 		lm.levels[1].Remove(e)
 	}
 
-	// delete old sstables from L0
-	for _, e := range l0Tables {
-		if err := os.Remove(lm.fileName(0, e.Value.(tableHandle).levelIdx)); err != nil {
-			lm.logger.Panicf("failed to delete old sstable: %v", err)
-		}
-	}
-	// delete old sstables from L1
-	for _, e := range l1Tables {
-		if err := os.Remove(lm.fileName(1, e.Value.(tableHandle).levelIdx)); err != nil {
-			lm.logger.Panicf("failed to delete old sstable: %v", err)
-		}
-	}
-
-	// write new sstable
+	// write and sync the new sstable before any input is deleted: until then the inputs
+	// are the only durable copy of the data
 	fd, err := os.OpenFile(lm.fileName(1, th.levelIdx), os.O_CREATE|os.O_RDWR|os.O_TRUNC, 0600)
 	if err != nil {
 		lm.logger.Panicf("failed to open sstable: %v", err)
@@ -457,6 +445,23 @@ func (lm *levelManager) compactL0() {
 	_, err = fd.Write(tableBytes)
 	if err != nil {
 		lm.logger.Panicf("failed to write sstable: %v", err)
+	}
+
+	if err = fd.Sync(); err != nil {
+		lm.logger.Panicf("failed to sync sstable: %v", err)
+	}
+
+	// delete old sstables from L0
+	for _, e := range l0Tables {
+		if err := os.Remove(lm.fileName(0, e.Value.(tableHandle).levelIdx)); err != nil {
+			lm.logger.Panicf("failed to delete old sstable: %v", err)
+		}
+	}
+	// delete old sstables from L1
+	for _, e := range l1Tables {
+		if err := os.Remove(lm.fileName(1, e.Value.(tableHandle).levelIdx)); err != nil {
+			lm.logger.Panicf("failed to delete old sstable: %v", err)
+		}
 	}
 }
 
@@ -515,18 +520,7 @@ func (lm *levelManager) compactLN(n int) {
 		lm.levels[n+1].Remove(e)
 	}
 
-	// delete old sstables from LN
-	if err := os.Remove(lm.fileName(n, lnTable.Value.(tableHandle).levelIdx)); err != nil {
-		lm.logger.Panicf("failed to delete old sstable: %v", err)
-	}
-	// delete old sstables from LN+1
-	for _, e := range ln1Tables {
-		if err := os.Remove(lm.fileName(n+1, e.Value.(tableHandle).levelIdx)); err != nil {
-			lm.logger.Panicf("failed to delete old sstable: %v", err)
-		}
-	}
-
-	// write new sstable
+	// write and sync the new sstable before any input is deleted
 	fd, err := os.OpenFile(lm.fileName(n+1, th.levelIdx), os.O_CREATE|os.O_RDWR|os.O_TRUNC, 0600)
 	if err != nil {
 		lm.logger.Panicf("failed to open sstable: %v", err)
@@ -540,6 +534,21 @@ func (lm *levelManager) compactLN(n int) {
 	_, err = fd.Write(tableBytes)
 	if err != nil {
 		lm.logger.Panicf("failed to write sstable: %v", err)
+	}
+
+	if err = fd.Sync(); err != nil {
+		lm.logger.Panicf("failed to sync sstable: %v", err)
+	}
+
+	// delete old sstables from LN
+	if err := os.Remove(lm.fileName(n, lnTable.Value.(tableHandle).levelIdx)); err != nil {
+		lm.logger.Panicf("failed to delete old sstable: %v", err)
+	}
+	// delete old sstables from LN+1
+	for _, e := range ln1Tables {
+		if err := os.Remove(lm.fileName(n+1, e.Value.(tableHandle).levelIdx)); err != nil {
+			lm.logger.Panicf("failed to delete old sstable: %v", err)
+		}
 	}
 }
 
